@@ -15,7 +15,15 @@ for mp in sorted(glob.glob(os.path.join(V, "seeded", "C*", "*", "meta.json"))):
     except Exception:
         diff = ""
     files = sorted(set(re.findall(r"^\+\+\+ b/(\S+)", diff, re.M)))
-    det = m.get("detected_by", {})
+    det = dict(m.get("detected_by", {}))
+    dj = os.path.join(d, "detect.json")
+    if os.path.exists(dj):
+        try:
+            for c, r in json.load(open(dj)).get("checks", {}).items():
+                if r.get("verdict"):
+                    det[c] = r["verdict"]
+        except Exception:
+            pass
     best = []
     for c, v in det.items():
         short = {"violation with replayed failing input": "VIOLATION + replayed input", "violation, no-failing-input-found": "VIOLATION (no-failing-input-found)",
@@ -23,6 +31,13 @@ for mp in sorted(glob.glob(os.path.join(V, "seeded", "C*", "*", "meta.json"))):
         best.append(f"{c}: {short}")
     cb = m.get("confirmed_by_me", {})
     ok = cb.get("ported_patch_on_head") or cb
+    cj = os.path.join(d, "confirm.json")
+    if ok.get("demo_exit_unchanged") is None and os.path.exists(cj):
+        try:
+            cr = json.load(open(cj))
+            ok = dict(ok, demo_exit_unchanged=cr.get("demo_unchanged_rc"), demo_exit_with_change=cr.get("demo_changed_rc"), baseline_tests_still_passing=cr.get("suite_ok"))
+        except Exception:
+            pass
     conf = f"demo {ok.get('demo_exit_unchanged')}->{ok.get('demo_exit_with_change')}, suite {'ok' if ok.get('baseline_tests_still_passing') else ok.get('baseline_tests_still_passing')}"
     rows.append(f"| {m['seed']} | {', '.join(f.replace('tdgl/', '') for f in files)} | {conf} | {'; '.join(best) or 'n/a'} | {m.get('note', '')} |")
 table = "\n".join(["| seed | file(s) changed | confirmed (demo exit unchanged->changed, baseline tests) | checks run against it | note |", "|---|---|---|---|---|"] + rows)
